@@ -11,6 +11,7 @@ import MesonModel.Quote.RuleLemmas
 import MesonModel.Quote.DigestLemmas
 import MesonModel.Quote.EnvLemmas
 import MesonModel.Quote.GenLemmas
+import MesonModel.Quote.AddArgs
 
 namespace MesonModel.Props.C03
 open MesonModel.Quote MesonModel.Py
@@ -695,6 +696,30 @@ example : genCommandArgs { infile := "../src/a.in".toList, soleOutput := "x.p/a.
     ["@INPUT@".toList, "a\\b".toList] =
     .ok ["--in=../src/a.in".toList, "a|a.in".toList, "x@EXTRA_ARGS@".toList, "@INPUT@".toList, "a\\b".toList,
          "x.p/a.h".toList] := by decide
+
+/-! ### The global / project argument API: several calls, repeated tokens -/
+
+/-- **add_arguments_concat**: after any history of `add_project_arguments` / `add_global_arguments` /
+link-variant / `add_project_dependencies` calls, the list stored for a language is the concatenation, in
+call order, of the batches given for that language — nothing dropped, nothing reordered, whether or not a
+string already occurs in an earlier batch -/
+theorem add_arguments_concat (h : List (List Str × List Str)) (l : Str) :
+    argsGet (addHistory [] h) l = h.flatMap (contribution l) := by
+  rw [argsGet_addHistory]; rfl
+
+/-- **add_arguments_keeps_multiplicity**: every argument string occurs in the stored list exactly as
+often as the calls for that language gave it (a paired option such as `-include` / `-Xlinker` repeated in
+a later call is not lost) -/
+theorem add_arguments_keeps_multiplicity (h : List (List Str × List Str)) (l t : Str) :
+    (argsGet (addHistory [] h) l).count t = (h.map (fun c => (contribution l c).count t)).sum := by
+  rw [add_arguments_concat]
+  induction h with
+  | nil => rfl
+  | cons c r ih => simp [List.flatMap_cons, List.count_append, ih]
+
+example : argsGet (addHistory [] [(["c".toList], ["-include".toList, "a.h".toList]),
+                                  (["c".toList, "cpp".toList], ["-include".toList, "b.h".toList])]) "c".toList =
+    ["-include".toList, "a.h".toList, "-include".toList, "b.h".toList] := by decide
 
 /-! ### `meson --internal exe`: the wrapper's own options never swallow the command -/
 
